@@ -29,13 +29,27 @@ func (a vpAddr) String() string  { return a.s }
 
 // vpCarrier is a plaintext carrier (TCP, stdio, KCP): scripted inbound bytes, recorded outbound bytes.
 type vpCarrier struct {
-	in     []byte
-	pos    int
-	out    []byte
-	closed int
+	in          []byte
+	pos         int
+	out         []byte
+	closed      int
+	silent      bool // the peer never answers: a read past the script blocks for ever unless a deadline was set
+	deadlineSet bool
 }
 
+type vpTimeout struct{}
+
+func (vpTimeout) Error() string   { return "i/o timeout" }
+func (vpTimeout) Timeout() bool   { return true }
+func (vpTimeout) Temporary() bool { return true }
+
 func (c *vpCarrier) Read(p []byte) (int, error) {
+	if c.pos >= len(c.in) && c.silent {
+		if c.deadlineSet {
+			return 0, vpTimeout{}
+		}
+		<-make(chan struct{}) // blocked for ever
+	}
 	if c.pos >= len(c.in) {
 		return 0, io.EOF
 	}
@@ -53,8 +67,8 @@ func (c *vpCarrier) Write(p []byte) (int, error) {
 func (c *vpCarrier) Close() error                       { c.closed++; return nil }
 func (c *vpCarrier) LocalAddr() net.Addr                { return vpAddr{"local"} }
 func (c *vpCarrier) RemoteAddr() net.Addr               { return vpAddr{"remote"} }
-func (c *vpCarrier) SetDeadline(t time.Time) error      { return nil }
-func (c *vpCarrier) SetReadDeadline(t time.Time) error  { return nil }
+func (c *vpCarrier) SetDeadline(t time.Time) error      { c.deadlineSet = !t.IsZero(); return nil }
+func (c *vpCarrier) SetReadDeadline(t time.Time) error  { c.deadlineSet = !t.IsZero(); return nil }
 func (c *vpCarrier) SetWriteDeadline(t time.Time) error { return nil }
 
 // vpTls is what the harness knows about one *tls.Conn handed out by a stub.
@@ -87,6 +101,7 @@ type vpEnv struct {
 	dialNetwork string
 	dialAddr    string
 	carrier     *vpCarrier // the plaintext carrier, if one was created
+	silent      bool
 	dialFails   bool
 }
 
@@ -118,7 +133,7 @@ func vpNetDial(network, address string) (net.Conn, error) {
 	if vpE.dialFails {
 		return nil, io.ErrUnexpectedEOF
 	}
-	vpE.carrier = &vpCarrier{in: vpE.script}
+	vpE.carrier = &vpCarrier{in: vpE.script, silent: vpE.silent}
 	return vpE.carrier, nil
 }
 
